@@ -523,13 +523,13 @@ class Impl:
 
 def make_node(kind: str, node_cfg: dict):
     """the node under test: a host (computer / server) or a network node (router / switch / firewall)"""
-    d = {"hostname": "n_" + kind, "start_up_duration": node_cfg["up"], "shut_down_duration": node_cfg["down"],
+    d = {"hostname": node_cfg.get("hostname", "n_" + kind), "start_up_duration": node_cfg["up"], "shut_down_duration": node_cfg["down"],
          "operating_state": node_cfg["power"]}
     if kind in ("computer", "server"):
         from primaite.simulator.network.hardware.nodes.host.computer import Computer
         from primaite.simulator.network.hardware.nodes.host.server import Server
         k = Computer if kind == "computer" else Server
-        return k.from_config(config={"type": kind, "ip_address": "192.168.1.2", "subnet_mask": "255.255.255.0", **d})
+        return k.from_config(config={"type": kind, "ip_address": node_cfg.get("ip", "192.168.1.2"), "subnet_mask": "255.255.255.0", **d})
     if kind == "switch":
         from primaite.simulator.network.hardware.nodes.network.switch import Switch
         return Switch.from_config({"type": "switch", "num_ports": 4, **d})
